@@ -238,6 +238,7 @@ def run_entry(entry, n, seed, acc, tier):
         for attempt in range(5):
             try:
                 doc = docgen.build_doc(entry, ch, values=docgen.Values(avoid, ch.choice(['markup', 'markup', 'plain']), entry['icvn']), **kw)
+                doc.avoid = avoid
                 break
             except docgen.GenFail:
                 kw = dict(kw, p_loop=kw['p_loop'] * .4)
